@@ -333,6 +333,9 @@ class Check:
                 continue
             upto = int(mm["line"]) if mm.get("line", "").isdigit() else None
             lines = extract_case(mm.get("transcript", res["transcript"]), cid, upto)
+            if mm.get("comp") in ("action", "candle", "text"):
+                # stateless components: the failing operation alone is the replay
+                lines = [l for l in lines if l.startswith(("P ", "C "))] + [lines[-2], "E"]
             sigtag = re.sub(r"[^A-Za-z0-9_.-]+", "_", sig)[:60]
             path = self.write_replay(f"{res['suite']}-case{cid}-{sigtag}", [
                 f"# property {self.prop}: disagreement between /repo and the Lean model/spec",
